@@ -62,7 +62,7 @@ func (c Condition) MarshalJSON() ([]byte, error) {
 // UnmarshalJSON converts a 3 element JSON array to a Condition
 func (c *Condition) UnmarshalJSON(b []byte) error {
 	var v []interface{}
-	err := json.Unmarshal(b, &v)
+	err := unmarshalExact(b, &v)
 	if err != nil {
 		return err
 	}
